@@ -132,3 +132,46 @@ func RunNonASCII() {
 	want := b.Doc.Eval(c.ast, spec.Ctx{Node: 0, Pos: 1, Size: 1}, bind)
 	c01.CompareResult(b, r, err, want, false, "non-ascii:"+safe(c.src))
 }
+
+// structPairs: an expression and the fully parenthesised reading that the
+// XPath 1.0 grammar gives it (predicates bind left to right; a predicate after
+// a filter expression applies to the whole filter expression; a step after a
+// filter expression continues from its result).
+var structPairs = [][2]string{
+	{"(//a)[@n][2]", "((//a)[@n])[2]"},
+	{"(//*)[2][@n]", "((//*)[2])[@n]"},
+	{"(//*)[position() > 1][1]", "((//*)[position() > 1])[1]"},
+	{"(//* | //@*)[. > 1][1]", "((//* | //@*)[. > 1])[1]"},
+	{"(//*)[@n][last()][1]", "(((//*)[@n])[last()])[1]"},
+	{"$v[@n][2]", "($v[@n])[2]"},
+	{"$v[2][@n]", "($v[2])[@n]"},
+	{"(//*)[2]/*[1]", "((//*)[2])/*[1]"},
+	{"(//a)[last()]/@n", "((//a)[last()])/@n"},
+	{"//*[@n][2]", "//*[@n][position() = 2]"},
+	{"//a[2][@n]", "//a[position() = 2][@n]"},
+	{"(//*)[@n][3]/..", "(((//*)[@n])[3])/.."},
+	{"id('x')[1][2]", "(id('x')[1])[2]"},
+}
+
+// RunStructure: predicates and steps after filter expressions are grouped as
+// the grammar says (both sides evaluated by the real code).
+func RunStructure() {
+	b := hx.Skeleton()
+	nd.Assert(b.TieOK, "store-mirrors-script")
+	var all xsel.NodeSet
+	for _, i := range b.Elements() {
+		all = append(all, b.Cursors[i])
+	}
+	ctx := b.Cursors[nd.Choice(len(b.Doc.Nodes))]
+	nd.Reach("structure")
+	for _, p := range structPairs {
+		g1, g2 := compile(p[0]), compile(p[1])
+		nd.Assert(g1 != nil && g2 != nil, "structure.accepts:"+safe(p[0]))
+		if g1 == nil || g2 == nil {
+			continue
+		}
+		r1, e1 := xsel.Exec(ctx, g1, xsel.WithVariable("v", all))
+		r2, e2 := xsel.Exec(ctx, g2, xsel.WithVariable("v", all))
+		nd.Assert(sameOutcome(r1, e1, r2, e2), "structure.groups-like:"+safe(p[0]))
+	}
+}
